@@ -4,7 +4,7 @@ import N0Verif.Proofs.Ini
 # C17 — delimited list / key=value text decodes to what was encoded
 
 Only property statements live here; helper lemmas are in `Proofs/Esc.lean`, the model in
-`Model/Esc.lean` (it follows the code with fix patches C17-a … C17-d applied).
+`Model/Esc.lean` (it follows the code with fix patches C17-a … C17-e applied).
 The INI part of the property (`parse_ini`, `load_ini`, `default_parse_value`, `split_pair`, `isnumber`,
 the lines `save_file` writes for a mapping) is modelled in `Model/Ini.lean` (code with fix patches
 C17-f and C17-g applied); its lemmas are in `Proofs/Ini.lean`.
@@ -132,14 +132,15 @@ def dictRoundTrip (d eq : Str) (v : Val) : Option (List (Str × Str)) :=
   | _ => none
 
 /-- **C17 (flat mapping round trip).**  A flat mapping with unique keys that contain no separator
-character and ASCII string values — over the whole reserved alphabet: delimiter, equal tag,
-backslash, braces, brackets, quote — serialises to `k=v;…` and comes back unchanged through
-`deserialize_dict` and `unescape`.  Separators: non-empty, free of backslash, `x` and lower-case hex
-digits, and sharing no character. -/
+character and arbitrary string values — every character, inside and outside ASCII (fix C17-e), the
+whole reserved alphabet included: delimiter, equal tag, backslash, braces, brackets, quote —
+serialises to `k=v;…` and comes back unchanged through `deserialize_dict` and `unescape`.
+Separators: non-empty, free of backslash, `x` and lower-case hex digits, sharing no character, and
+(`WideOk`) free of `u`/`U` if one of their characters is above U+00FF. -/
 theorem C17_dict_roundtrip (d eq : Str) (c : Cls) (m : List (Str × Str))
     (hd : d ≠ []) (heq : eq ≠ []) (hsd : SafeSep d) (hse : SafeSep eq) (hdis : ∀ ch ∈ eq, ch ∉ d)
-    (hkeys : (m.map Prod.fst).Nodup) (hk : ∀ kv ∈ m, Clean d kv.1 ∧ Clean eq kv.1)
-    (hv : ∀ kv ∈ m, ∀ ch ∈ kv.2, ch.toNat < 128) :
+    (hw : WideOk d eq)
+    (hkeys : (m.map Prod.fst).Nodup) (hk : ∀ kv ∈ m, Clean d kv.1 ∧ Clean eq kv.1) :
     dictRoundTrip d eq (flatVal c m) = some m := by
   unfold dictRoundTrip
   rw [serializeDict_flat d eq heq c m]
@@ -147,8 +148,8 @@ theorem C17_dict_roundtrip (d eq : Str) (c : Cls) (m : List (Str × Str))
   have hb : '\\' ∈ dangerous d eq := by simp [dangerous]
   have hdsub : ∀ ch ∈ d, ch ∈ dangerous d eq := by intro ch h; simp [dangerous, h]
   have hesub : ∀ ch ∈ eq, ch ∈ dangerous d eq := by intro ch h; simp [dangerous, h]
-  have h256 : ∀ kv ∈ m, ∀ ch ∈ kv.2, ch.toNat < 256 := fun kv hkv ch hch => by
-    have := hv kv hkv ch hch; omega
+  have hud : (∀ a ∈ dangerous d eq, a.toNat < 0x100) ∨ (∀ c ∈ d, c ≠ 'u' ∧ c ≠ 'U') :=
+    wideOk_dangerous d eq d hw (fun c h => by simp [h])
   -- the list of items
   have hlist : deserializeList (join d (m.map (itemOf d eq))) d false none = .ok (m.map (itemOf d eq)) := by
     cases hm : m with
@@ -165,7 +166,7 @@ theorem C17_dict_roundtrip (d eq : Str) (c : Cls) (m : List (Str × Str))
         rcases hch with (hch | hch) | hch
         · exact (hk kv hkv).1 ch hch
         · exact hdis ch hch
-        · exact escapeValue_clean _ d kv.2 hsd hdsub (h256 kv hkv) ch hch
+        · exact escapeValue_clean _ d kv.2 hsd hdsub hud ch hch
       rw [C17_join_roundtrip_drop_empty d _ none hd hne hclean (by intro e he; cases he)]
       congr 1
       apply List.filter_eq_self.2
@@ -196,21 +197,23 @@ theorem C17_dict_roundtrip (d eq : Str) (c : Cls) (m : List (Str × Str))
   simp only [deserializeDict, hlist, hpairs, hmap, bind, Except.bind, pure, Except.pure]
   rw [dictOfPairs_nodup _ (by rw [List.map_map]; exact hkeys)]
   rw [unescapeDict_ok m (escapeValue (dangerous d eq))
-    (fun kv hkv => unescape_escapeValue _ _ hb (hv kv hkv))]
+    (fun kv _ => unescape_escapeValue _ _ hb)]
 
-/-- **C17 (reserved characters in values are protected).**  The text written for a value contains
-no character of the delimiter or of the equal tag, no brace, bracket or double quote; what it
-contains beyond the harmless characters of the value is the `\\xNN` notation. -/
-theorem C17_values_protected (d eq v : Str) (hsd : SafeSep d) (hse : SafeSep eq)
-    (hv : ∀ a ∈ v, a.toNat < 256) :
+/-- **C17 (reserved characters in values are protected).**  The text written for a value — any
+text — contains no character of the delimiter or of the equal tag, no brace, bracket or double
+quote; what it contains beyond the harmless characters of the value is the `\\xNN` (`\\uNNNN`,
+`\\UNNNNNNNN` for a reserved character above U+00FF) notation. -/
+theorem C17_values_protected (d eq v : Str) (hsd : SafeSep d) (hse : SafeSep eq) (hw : WideOk d eq) :
     Clean d (escapeValue (dangerous d eq) v) ∧ Clean eq (escapeValue (dangerous d eq) v)
       ∧ Clean ['{', '}', '[', ']', '"'] (escapeValue (dangerous d eq) v) :=
-  ⟨escapeValue_clean _ d v hsd (by intro ch h; simp [dangerous, h]) hv,
-   escapeValue_clean _ eq v hse (by intro ch h; simp [dangerous, h]) hv,
+  ⟨escapeValue_clean _ d v hsd (by intro ch h; simp [dangerous, h])
+     (wideOk_dangerous d eq d hw (fun c h => by simp [h])),
+   escapeValue_clean _ eq v hse (by intro ch h; simp [dangerous, h])
+     (wideOk_dangerous d eq eq hw (fun c h => by simp [h])),
    escapeValue_clean _ _ v (by decide) (by
      intro ch h
      simp only [List.mem_cons, List.not_mem_nil, or_false] at h
-     rcases h with h | h | h | h | h <;> simp [dangerous, h]) hv⟩
+     rcases h with h | h | h | h | h <;> simp [dangerous, h]) (Or.inr (by decide))⟩
 
 /-- **C17 (nested mappings serialise).**  On every tree of mappings, lists and scalars in which no
 list directly contains `None`, with every setting of the flags, `serialize_dict` raises nothing.
@@ -370,9 +373,13 @@ theorem C17_ini_comment_line_ignored (eq : Str) (pre post : List Str) (c : Str) 
 
 /-! ## counter-examples and limits (the model exhibits them; the harness replays them) -/
 
-/-- open finding C17-e: text outside ASCII does not survive `unescape` -/
-theorem C17_nonascii_cex :
-    dictRoundTrip [';'] ['='] (flatVal .plain [(['k'], ['é'])]) = some [(['k'], ['Ã', '©'])] := by
+/-- fixed finding C17-e: text outside ASCII survives `unescape` (before the fix `{'k':'é'}` came
+back as `{'k':'Ã©'}`), and so does a reserved character above U+00FF (it was written `\\x20ac`) -/
+theorem C17_nonascii_example :
+    dictRoundTrip [';'] ['='] (flatVal .plain [(['k'], ['é', '€', ';'])]) = some [(['k'], ['é', '€', ';'])]
+    ∧ serializeDict ['€'] ['='] (flatVal .plain [(['k'], ['a', '€', 'é'])])
+        = .ok (some ['k', '=', 'a', '\\', 'u', '2', '0', 'a', 'c', 'é'])
+    ∧ dictRoundTrip ['€'] ['='] (flatVal .plain [(['k'], ['a', '€', 'é'])]) = some [(['k'], ['a', '€', 'é'])] := by
   decide
 
 /-- a list that directly contains `None` makes `serialize_dict` raise `TypeError` (`str += None`);
@@ -402,7 +409,9 @@ example : pySplit [';'] 2 "a;b;c;d".toList = .ok ["a".toList, "b".toList, "c;d".
 example : deserializeList "a;;b c".toList [';'] true (some '\\') = .ok ["a".toList, [], "b c".toList] := by decide
 example : Clean [';'] "b c".toList := by decide
 example : keyValue ['='] none (some ['D']) "key".toList = .ok ("key".toList, some ['D']) := by decide
-example : SafeSep [';'] ∧ SafeSep ['=', '>'] := by constructor <;> decide
+example : SafeSep [';'] ∧ SafeSep ['=', '>'] ∧ SafeSep ['€'] := by refine ⟨?_, ?_, ?_⟩ <;> decide
+example : WideOk [';'] ['='] ∧ WideOk ['u'] ['é'] ∧ WideOk ['€', ';'] ['=', '>'] ∧ ¬ WideOk ['€'] ['u'] := by
+  refine ⟨?_, ?_, ?_, ?_⟩ <;> decide
 example : escapeValue (dangerous [';'] ['=']) "a=b;{".toList = "a\\x3db\\x3b\\x7b".toList := by decide
 example : dictRoundTrip [';'] ['='] (flatVal .n0 [(['k'], "a;b={\\}\"".toList), ([], [])])
     = some [(['k'], "a;b={\\}\"".toList), ([], [])] := by decide
